@@ -165,8 +165,7 @@ def compare_decode(impl, model):
             return 'decoded value differs in subset %d at %d (%s): implementation %r, model %r' % (i, d[0], a['d'][d[0]] if d[0] < len(a['d']) else '?', d[1], d[2])
         if a['l'] != m['l']:
             return 'attribute links differ in subset %d: implementation %s, model %s' % (i, a['l'], m['l'])
-    if model.get('rest', 0) >= 16:
-        return 'model left %d unread bits' % model['rest']
+    # bits left unread after the last value are padding or surplus octets of section 4 (legal, C04): not compared
     return None
 
 
